@@ -471,6 +471,11 @@ class OpsMixin:
                 t = cons(self.to_u(k), self.to_u(v[k]), t)
             return t
         if isinstance(v, Obj):
+            hook = getattr(self, "to_u_hooks", {}).get(v.cls.qualname)
+            if hook is not None:
+                r = hook(self, v)
+                if r is not None:
+                    return r
             names = sorted(v.fields)
             f = c.fn("mk_" + v.cls.name, *([U] * len(names)), U)
             args = [self.to_u(v.fields[n]) for n in names]
